@@ -785,8 +785,12 @@ impl RuleCatalog {
 
         // Ensure the rules directory exists
         if let Some(parent) = self.catalog_path.parent() {
+            #[cfg(inputlayer_verif)]
+            crate::verif_hooks::fs_point("rulecat.save.mkdir:pre");
             fs::create_dir_all(parent)
                 .map_err(|e| format!("Failed to create rules directory: {e}"))?;
+            #[cfg(inputlayer_verif)]
+            crate::verif_hooks::fs_point("rulecat.save.mkdir:post");
         }
 
         let catalog_file = CatalogFile {
@@ -797,8 +801,12 @@ impl RuleCatalog {
         let content = serde_json::to_string_pretty(&catalog_file)
             .map_err(|e| format!("Failed to serialize catalog: {e}"))?;
 
+        #[cfg(inputlayer_verif)]
+        crate::verif_hooks::fs_point("rulecat.save.write:pre");
         fs::write(&self.catalog_path, content)
             .map_err(|e| format!("Failed to write catalog: {e}"))?;
+        #[cfg(inputlayer_verif)]
+        crate::verif_hooks::fs_point("rulecat.save.write:post");
 
         self.dirty = false;
         Ok(())
